@@ -266,7 +266,14 @@ class Ctx:
             if ca != b:
                 st["disagreements"] += 1
                 if len(self.corr_failures) < 50:
-                    self.corr_failures.append({"what": "correspondence %s" % key, "op": op, "impl": a[:200], "model": b[:200], "index": i})
+                    rec = {"what": "correspondence %s" % key, "op": op, "impl": a[:200], "model": b[:200], "index": i}
+                    if st["disagreements"] == 1:
+                        # the script that leads to the first disagreement: from the last `new ...` op on (replayable)
+                        j = i
+                        while j > 0 and not script[j].startswith("new") and i - j < 600:
+                            j -= 1
+                        rec["script"] = script[j:i + 1]
+                    self.corr_failures.append(rec)
         self.cov["traces_validated_against_impl"] += len(script)
         return impl, model
 
